@@ -496,6 +496,17 @@ def _ord_variants(p):
     return None
 
 
+def _effect_free(x):
+    """a place, a literal, or a cast / field / reference of one: evaluating it early or not at all
+    is unobservable"""
+    x = peel(x)
+    if x.get('k') in ('Lit',) or (x.get('k') == 'Path'):
+        return True
+    if x.get('k') in ('Cast', 'Field', 'AddrOf', 'Unary') and x.get('ch'):
+        return _effect_free(x['ch'][0])
+    return False
+
+
 def _pure_arith(x):
     """arithmetic over locals and literals that cannot panic or have effects when evaluated
     eagerly (`window / 2`: division only by a non-zero literal; no overflow-capable operator)"""
@@ -518,8 +529,9 @@ def _plain_place(x):
 def _lit_match_chain(e):
     scr = e['ch'][0]
     ty = peel(scr).get('ty', '')
-    if ty not in ('i8', 'i16', 'i32', 'i64', 'isize', 'u8', 'u16', 'u32', 'u64', 'usize') or not _plain_place(scr):
+    if not _plain_place(scr):
         return None
+    is_int = ty in ('i8', 'i16', 'i32', 'i64', 'isize', 'u8', 'u16', 'u32', 'u64', 'usize')
     arms = e['arms']
     kinds = []
     for a in arms:
@@ -534,6 +546,8 @@ def _lit_match_chain(e):
             return None
     if 'guard' in arms[-1] or kinds[-1] == 'lit' or 'lit' not in kinds and 'bind' not in kinds:
         return None
+    if 'lit' in kinds and not is_int:
+        return None             # literal arms are compared with `==` only for the integer types
 
     def blk(x, lets=()):
         if not lets and x.get('k') == 'Block':
@@ -874,11 +888,12 @@ def normalize(e):
         r = _lit_match_chain(e)
         if r is not None:
             return r
-    # `c.then(|| x)` is `if c { Some(x) } else { None }`
-    if k == 'MethodCall' and e.get('method') == 'then' and len(e.get('ch', [])) == 2 and \
-            callee_is(e, 'bool::then') and peel(e['ch'][1]).get('k') == 'Closure' and \
-            not peel(e['ch'][1]).get('params'):
-        x_ = peel(e['ch'][1])['ch'][0]
+    # `c.then(|| x)` is `if c { Some(x) } else { None }`; so is `c.then_some(x)` for an x without effects
+    if k == 'MethodCall' and e.get('method') in ('then', 'then_some') and len(e.get('ch', [])) == 2 and \
+            (callee_is(e, 'bool::then') and peel(e['ch'][1]).get('k') == 'Closure' and
+             not peel(e['ch'][1]).get('params') or
+             callee_is(e, 'bool::then_some') and _effect_free(e['ch'][1])):
+        x_ = peel(e['ch'][1])['ch'][0] if e['method'] == 'then' else e['ch'][1]
         ty_ = e.get('ty')
         inner_ty = x_.get('ty')
         some_ = {'k': 'Call', 'ty': ty_, 'callee_res': 'Ctor(Variant, Fn)', 'callee': 'std::prelude::v1::Some',
@@ -890,6 +905,17 @@ def normalize(e):
         return {'k': 'If', 'ty': ty_, 'sp': e.get('sp'), 'id': e.get('id'),
                 'ch': [e['ch'][0], {'k': 'Block', 'ty': ty_, 'stmts': [], 'expr': some_, 'sp': e.get('sp')},
                        {'k': 'Block', 'ty': ty_, 'stmts': [], 'expr': none_, 'sp': e.get('sp')}]}
+    # `o.unwrap_or_else(|| d)` is `o.unwrap_or(d)` when d is a literal or panic-free arithmetic on locals
+    if k == 'MethodCall' and e.get('method') == 'unwrap_or_else' and len(e.get('ch', [])) == 2 and \
+            callee_is(e, 'Option::unwrap_or_else'):
+        c_ = peel(e['ch'][1])
+        if c_.get('k') == 'Closure' and not c_.get('params'):
+            b_ = peel(c_['ch'][0])
+            while b_.get('k') == 'Block' and not b_.get('stmts') and 'expr' in b_:
+                b_ = peel(b_['expr'])
+            if _pure_arith(b_):
+                return {'k': 'MethodCall', 'method': 'unwrap_or', 'callee': 'std::option::Option::<T>::unwrap_or',
+                        'ch': [e['ch'][0], b_], 'sp': e.get('sp'), 'id': e.get('id'), 'ty': e.get('ty')}
     # `o.map_or(d, |x| x)` is `o.unwrap_or(d)`
     if k == 'MethodCall' and e.get('method') == 'map_or' and len(e.get('ch', [])) == 3 and \
             callee_is(e, 'Option::map_or'):
@@ -968,6 +994,12 @@ def normalize(e):
                 it = peel(it)['ch'][0]
             return {'k': 'For', 'pat': cl['params'][0], 'ch': [it, cl['ch'][0]],
                     'sp': e.get('sp'), 'id': e.get('id'), 'ty': '()', 'via': 'for_each'}
+    # `let f = |p| body; .. f(a) ..` is `.. body[p := a] ..` for an immutable local helper closure that
+    # is only called, with effect-free arguments
+    if k == 'Block' and any(s_.get('k') == 'Let' and 'init' in s_ and s_['pat'].get('k') == 'Binding' and
+                            not s_['pat'].get('mut') and peel(s_['init']).get('k') == 'Closure'
+                            for s_ in e.get('stmts', [])):
+        e = _inline_local_closures(e)
     # `let PAT = init else { diverge }; rest` is `if let PAT = init { rest } else { diverge }`
     if k == 'Block' and any(s_.get('k') == 'Let' and 'els' in s_ and 'init' in s_ for s_ in e.get('stmts', [])):
         e = _let_else(e)
@@ -1004,6 +1036,64 @@ def normalize(e):
             return {'k': 'MultiAssign', 'targets': targets, 'pat': s0['pat'], 'ch': [init],
                     'sp': e.get('sp'), 'id': e.get('id'), 'ty': '()', 'binds': len(binds)}
     return e
+
+
+def _inline_local_closures(blk):
+    import copy
+    st = list(blk['stmts'])
+    out_st = []
+    tail = blk.get('expr')
+    i = 0
+    changed = False
+    while i < len(st):
+        s_ = st[i]
+        cl = peel(s_['init']) if s_.get('k') == 'Let' and 'init' in s_ and s_['pat'].get('k') == 'Binding' and \
+            not s_['pat'].get('mut') else None
+        if cl is None or cl.get('k') != 'Closure' or \
+                not all(p.get('k') == 'Binding' and not p.get('mut') for p in cl.get('params', [])) or \
+                any(n.get('k') == 'Ret' for n in walk(cl['ch'][0])) or \
+                _assigned_locals(cl['ch'][0]):
+            out_st.append(s_)
+            i += 1
+            continue
+        lid = s_['pat']['local']
+        rest = {'k': 'Tup', 'ch': [x for r in st[i + 1:] for x in ([r.get('init')] if r.get('k') == 'Let' else [r.get('e')])
+                                   if x is not None] + ([tail] if tail is not None else [])}
+        uses = [n for n in walk(rest) if n.get('k') == 'Path' and n.get('res') == 'local' and n.get('local') == lid]
+        calls = [n for n in walk(rest) if n.get('k') == 'Call' and n.get('ch') and
+                 peel(n['ch'][0]).get('k') == 'Path' and peel(n['ch'][0]).get('local') == lid]
+        ok = bool(calls) and len(uses) == len(calls) and \
+            all(len(c['ch']) - 1 == len(cl['params']) and all(_effect_free(a) for a in c['ch'][1:]) for c in calls)
+        if not ok:
+            out_st.append(s_)
+            i += 1
+            continue
+
+        def subst(x):
+            if isinstance(x, list):
+                return [subst(y) for y in x]
+            if not isinstance(x, dict):
+                return x
+            if x.get('k') == 'Call' and x.get('ch') and peel(x['ch'][0]).get('k') == 'Path' and \
+                    peel(x['ch'][0]).get('local') == lid:
+                body = copy.deepcopy(cl['ch'][0])
+                for p_, a_ in zip(cl['params'], x['ch'][1:]):
+                    body = _subst_local(body, p_['local'], subst(a_), True)
+                return body
+            return {key: (subst(v) if isinstance(v, (dict, list)) and key not in ('targs', 'adj', 'captures') else v)
+                    for key, v in x.items()}
+        st = st[:i + 1] + [subst(r) for r in st[i + 1:]]
+        if tail is not None:
+            tail = subst(tail)
+        changed = True
+        i += 1          # the binding itself is dropped
+    if not changed:
+        return blk
+    out = {key: v for key, v in blk.items() if key not in ('stmts', 'expr')}
+    out['stmts'] = out_st
+    if tail is not None:
+        out['expr'] = tail
+    return out
 
 
 def _let_else(blk):
